@@ -7,7 +7,14 @@ package parser
 import (
 	"fmt"
 	"strconv"
+	"unicode/utf8"
 )
+
+// charCode is the character code of a character literal: its first rune, not its first byte.
+func charCode(lexeme string) int {
+	r, _ := utf8.DecodeRuneInString(lexeme)
+	return int(r)
+}
 
 type parser struct {
 	lex       *lexer
@@ -261,7 +268,7 @@ func (p *parser) parseTokendef() *TokenDef {
 				Tag: Tag,
 				// noname need do for sepical.
 				Name:  genTempName(p.current.Value),
-				Value: int(p.current.Value[0]),
+				Value: charCode(p.current.Value),
 				IDTyp: TERMID,
 				Alias: p.current.Value,
 			}
@@ -315,7 +322,7 @@ func (p *parser) parsePrecList(Tklist *[]TokenDef) []PrecDef {
 			idvalue := 0
 			if p.current.Is(Charater) {
 				IdName = genTempName(IdName)
-				idvalue = int(p.current.Value[0])
+				idvalue = charCode(p.current.Value)
 			}
 			if !p.TokenDefMap[IdName] {
 				id := Idendity{
@@ -503,7 +510,7 @@ func (p *parser) parseRule(toklst *[]TokenDef) []RuleDef {
 					Tag: "",
 					// noname need do for sepical.
 					Name:  genTempName(p.current.Value),
-					Value: int(p.current.Value[0]),
+					Value: charCode(p.current.Value),
 					IDTyp: TERMID,
 					Alias: "",
 				}
